@@ -306,6 +306,64 @@ def check(run):
                     else:
                         ok = res.kind == 'ProofError'
                         run.check(ok, 'D3', 'check_account_proof[rejecting path]' if not ok else f'{tag}|reject[{desc[:40]}]', f'{tag}: raises {res.kind} {str(res.what)[:60]}', w3)
+    # history: the same proof bytes presented again for ANOTHER block in the same process - every accepting path of the second call
+    # must have compared the proof's block hash with the second block id (a result remembered per proof would skip that)
+    def twice(orc):
+        it = mk(prog)
+        it.oracle = orc
+        ST = sym32('STATE_FROM_HEADER')
+        new = pruned(it, 'new', ST)
+        upd = merkle_update(it, 'upd', ordinary(it, 'old'), new, ST)
+        blk_root = ordinary(it, 'blkroot', [ordinary(it, 'info'), ordinary(it, 'vflow'), upd, ordinary(it, 'extra')])
+        p0 = merkle_proof(it, 'p0', sym32('D0'), blk_root)
+        A = sym32('ACCOUNT_L0')
+        acc_cell = ordinary(it, 'acc', h=A)
+        sh_acc_cell = ordinary(it, 'shardaccount', [acc_cell])
+        state_root = ordinary(it, 'stateroot', [sh_acc_cell])
+        p1 = merkle_proof(it, 'p1', sym32('D1'), state_root)
+        roots = [p0, p1]
+        claim = cm.new_cell(it, cm.tvm_bits(it, BA([Seg(24, 'k', format(0xC1A133, '024b'))])), [])
+        SA = Inst(prog.cls('ShardAccount'))
+        SA.attrs.update(cell=sh_acc_cell, account=K(None), last_trans_hash=sym32('LTH'), last_trans_lt=K(5))
+        addr = Inst(prog.cls('Address'))
+        addr.attrs.update(wc=K(0), hash_part=K(bytes(range(32))))
+        accounts = DictV({int.from_bytes(bytes(range(32)), 'big'): SA})
+        accounts.keyobj = {k: K(k) for k in accounts.d}
+        shard = Inst(prog.cls('ShardStateUnsplit'))
+        shard.attrs['accounts'] = ListV([accounts, ListV([])], tup=True)
+
+        def summary(f, args, kw):
+            if f.name == 'from_boc' and f.cls is not None and f.cls.name == 'Cell':
+                return ListV(list(roots))
+            if f.name == 'deserialize' and f.cls is not None and f.cls.name == 'ShardStateUnsplit':
+                return shard
+            return None
+        it.summary_hook = summary
+        outs = []
+        for tag_ in ('FIRST', 'SECOND'):
+            blk = Inst(prog.cls('BlockIdExt'))
+            BH = sym32('BLOCKHASH_' + tag_)
+            blk.attrs.update(root_hash=BH, file_hash=sym32('FH_' + tag_), workchain=K(0), shard=K(1 << 63), seqno=K(9 if tag_ == 'FIRST' else 10))
+            try:
+                it.invoke(f_acc, [K(b'proof-bytes'), blk, addr, claim, K(True)], {})
+                outs.append(('accept', eq_decided(it, blk_root.l0, BH)))
+            except RaiseEx as e:
+                outs.append(('raise', e.kind))
+                if tag_ == 'FIRST':
+                    break
+        return outs
+    nsecond = 0
+    for outs, desc in run_paths(twice, 512):
+        run.evaluations += 1
+        if len(outs) == 2 and outs[0][0] == 'accept':
+            nsecond += 1
+            kind, c1 = outs[1]
+            ok = kind == 'raise' or c1 is True
+            run.check(ok, 'D3', 'check_account_proof[same proof, another block]' if not ok else f'history|second call {kind}[{desc[-40:]}]',
+                      f'after an accepted call the same proof bytes are presented for another block id: {"accepted" if kind == "accept" else "rejected"}' +
+                      ('' if ok else f' although the proof block hash was compared with the new block id: {c1}') + f' [path {desc[:80]}]', w3)
+    if not nsecond:
+        raise AnalysisError('C11 history scenario: no path accepts the first call')
     # the queried account is not among the leaves the proof shows (e.g. its dictionary branch was pruned): nothing may be accepted,
     # whatever is claimed - an accepting path there has compared the claim with no committed hash at all
     for claim_kind in ('empty cell', 'None', 'ordinary'):
